@@ -33,6 +33,12 @@ pub trait NftConfigModule:
         );
 
         self.require_valid_cost(&nft_cost);
+        if nft_cost.token_identifier.is_esdt() {
+            require!(
+                self.launchpad_token_id().get() != nft_cost.token_identifier.clone().unwrap_esdt(),
+                "Launchpad token must be different from NFT cost token"
+            );
+        }
         self.nft_cost().set(&nft_cost);
     }
 
